@@ -54,6 +54,8 @@ UNIFORM = {
     "a8sw8t": fr.cdesc(fr.tdesc(8, True), fr.tdesc(8, True, "TENSORWISE"), "INTEGER"),
     "a16w8": fr.cdesc(fr.tdesc(16, True), fr.tdesc(8, True, "CHANNELWISE"), "INTEGER"),
     "a8w4": fr.cdesc(fr.tdesc(8, False), fr.tdesc(4, True, "CHANNELWISE"), "INTEGER"),
+    "a16w4": fr.cdesc(fr.tdesc(16, True), fr.tdesc(4, True, "CHANNELWISE"), "INTEGER"),
+    "a8sw4t": fr.cdesc(fr.tdesc(8, True), fr.tdesc(4, True, "TENSORWISE"), "INTEGER"),
     "drq8": fr.cdesc(None, fr.tdesc(8, True, "CHANNELWISE"), "INTEGER"),
     "drq4": fr.cdesc(None, fr.tdesc(4, True, "TENSORWISE"), "INTEGER"),
     "drq8t": fr.cdesc(None, fr.tdesc(8, True, "TENSORWISE"), "INTEGER"),
